@@ -185,7 +185,9 @@ func (c *Conn) serve() {
 
 func (c *Conn) readCommand(dec *imapwire.Decoder) error {
 	var tag, name string
-	if !dec.ExpectAtom(&tag) || !dec.ExpectSP() || !dec.ExpectAtom(&name) {
+	// "+" is an atom character but not allowed in a tag: the tagged reply
+	// would read as a continuation request
+	if !dec.ExpectAtom(&tag) || !dec.Expect(!strings.Contains(tag, "+"), "tag") || !dec.ExpectSP() || !dec.ExpectAtom(&name) {
 		return fmt.Errorf("in command: %w", dec.Err())
 	}
 	name = strings.ToUpper(name)
